@@ -51,6 +51,10 @@ CHECKS = {
    technique="exhaustive enumeration of input lists (size classes x failure kinds x failing position x targets x stdout kind) through the real binary, compared with one in-process Translator",
    text="For every list of up to 3 inputs (thorough: 6) over output size classes from 12 B to 1.2 MB and every failure kind at every position, all targets, stdout a pipe or a file: exit 1 exactly when the library fails, and stdout then starts with the complete translations of all earlier inputs; all-good lists exit 0 with every byte written.",
    note="Trusted: the library run in-process as the byte oracle."),
+ "C16": dict(cat="fault_enumeration", design="4.16",
+   technique="exhaustive syscall-level fault enumeration through an LD_PRELOAD shim (every write(2) index on fd 1 x errno / short write) plus a real pipe whose consumer leaves at enumerated byte counts while xt is provably blocked in write",
+   text="For every scenario (all targets, output sizes around the 8 KiB buffer and several pipe capacities, file and stdin input, one and several inputs) and EVERY write call index on stdout: EPIPE ends xt by SIGPIPE with empty stderr (never exit 0), ENOSPC/EIO end it with status 1 and an 'xt error' message, a short write loses nothing; a real consumer that takes k bytes and leaves (k enumerated, xt pinned in a blocked write) gives the same; /dev/full gives status 1 and a message.",
+   note="Trusted: the shim (checked transparent when idle, and seen to intercept writes by the dry run), /proc/<pid>/syscall as evidence that xt is blocked in write(1). Kernel-internal timing races are not explored; Linux only."),
 }
 
 NOT_YET = "check not built yet (planned in DESIGN.md section 4); not claimed until registered under checks"
